@@ -562,8 +562,15 @@ func (r *propRun) report(prop, tier string, seed int, evPath string, noEvidence 
 		os.MkdirAll(filepath.Dir(evPath), 0o755)
 		writeJSON(evPath, ev)
 	}
-	fmt.Printf("gocv: property %s tier %s: %d obligations, %d discharged, %d failing (%d known, %d check-only clauses recorded as findings of another property), %d generation errors, %d functions, %.1fs\n",
-		prop, tier, total, discharged, len(failed), known, otherOwned, len(r.genErrors), len(r.funcs), r.wall)
+	stale := 0
+	for _, n := range r.notes {
+		if strings.Contains(n, "stale-invariant: ") {
+			stale++
+			fmt.Printf("NOTE property=%s %s\n", prop, n)
+		}
+	}
+	fmt.Printf("gocv: property %s tier %s: %d obligations, %d discharged, %d failing (%d known, %d check-only clauses recorded as findings of another property), %d generation errors, %d stale invariant conjuncts ignored, %d functions, %.1fs\n",
+		prop, tier, total, discharged, len(failed), known, otherOwned, len(r.genErrors), stale, len(r.funcs), r.wall)
 	if violations > 0 {
 		return 1
 	}
